@@ -279,7 +279,7 @@ CM = "hexital.core.candle_manager.CandleManager."
 
 # ---- C19: CandleManager.append accepts a Candle, a dict, a list (timestamp last) and lists of those with the
 # same result, and leaves the caller's objects alone
-def append_builder(form):
+def append_builder(form, timeframe=None):
     def build(ex, st):
         import z3
         from hexvc.objects import instantiate
@@ -294,7 +294,7 @@ def append_builder(form):
         vals_ = {f: SFloat(z3.Real(f)) for f in ("open", "high", "low", "close")}
         vals_["volume"] = SNum(z3.Real("volume"), z3.BoolVal(False))
         vals_["timestamp"] = DateTimeV(z3.Int("ts"))
-        m = st.alloc(ObjP(mcls, {"candles": st.alloc(ListP([])), "timeframe": None, "timeframe_fill": False,
+        m = st.alloc(ObjP(mcls, {"candles": st.alloc(ListP([])), "timeframe": timeframe, "timeframe_fill": False,
                                  "candles_lifespan": None, "candlestick_type": None}))
         order = ["open", "high", "low", "close", "volume", "timestamp"]
         if form in ("candle", "candles"):
@@ -310,6 +310,8 @@ def append_builder(form):
             arg = l if form == "list" else st.alloc(ListP([l]))
         env = dict(vals_)
         env.update({"self": m, "candles": arg})
+        if form in ("candle", "candles"):
+            env["c0"] = c
         yield st, [m, arg], {}, env
     return build
 
@@ -324,6 +326,23 @@ APPEND = Contract(
     result_type="None", props=["C19"], use_at_calls=False, pure_args=["candles"])
 for _form in ("candle", "candles", "dict", "Dict", "dicts", "list", "lists"):
     HEX_TASKS[CM + "append#" + _form] = dict(qualname=CM + "append", builder=append_builder(_form), contract=APPEND)
+
+
+# a manager of a derived timeframe keeps its own deep copies: nothing it later merges, converts or writes readings on
+# is shared with the caller's candles (which the default manager of the same Hexital holds)
+def _noop(ex, st, args, kwargs, node):
+    def gen():
+        yield st, None
+    return gen()
+
+
+for _form in ("candle", "candles"):
+    HEX_TASKS[CM + "append#derived-" + _form] = dict(
+        qualname=CM + "append", builder=append_builder(_form, "T5"), natives={CM + "_tasks": _noop},
+        contract=Contract(CM + "append", ensures=dict(APPEND.ensures, **{
+            "own-deep-copy": "self.candles[0] is not c0 and self.candles[0].indicators is not c0.indicators"
+                             " and self.candles[0].sub_indicators is not c0.sub_indicators and self.candles[0].clean_values is not c0.clean_values"}),
+            result_type="None", props=["C19", "C08", "C13"], use_at_calls=False, pure_args=["candles"]))
 
 
 # ---- task order on every append: collapse -> convert -> trim (C11, C15, C01)
